@@ -13,7 +13,7 @@ run).
 (3) Representation level (Model/Stores.lean): `ram_datastore.py`'s nested dictionaries and
 `sql_datastore.py`'s tables are modelled separately, method by method.  The nested-dict store is
 proved to be the ABSTRACTION (`absQ`) of the table store along every sequence of study / trial
-writes the service can issue, and every read returns the same value on both
+and suggestion-operation writes the service can issue, and every read returns the same value on both
 (`c07_store_simulation`); the one place where the two stores differ at the datastore level -
 `create_trial` into a study that does not exist - is exhibited (`c07_create_trial_orphan_counterexample`)
 and excluded by the guard the service provides.  `len(ops)` (RAM) and `max(operation_number)` (SQL)
@@ -74,17 +74,24 @@ open VizierModel.Stores in
 theorem c07_store_simulation (ops : List WOp) (rd : ROp) :
     (Ram.empty.runW ops).2 = (Sql.empty.runW ops).2 ∧
     (Ram.empty.runW ops).1.read rd = (Sql.empty.runW ops).1.read rd := by
-  have h := runW_sim Sql.empty wf_empty ops
+  have h := runW_sim Sql.empty wf_empty numbered_empty ops
   rw [absQ_empty] at h
   refine ⟨by rw [h.1], ?_⟩
   rw [h.1]
-  exact read_sim _ h.2 rd
+  exact read_sim _ h.2.1 h.2.2 rd
 
 open VizierModel.Stores in
 /-- the table invariants (unique keys, owners registered, no trial row without its study) hold after
     every such sequence -/
 theorem c07_store_wf (ops : List WOp) : WF (Sql.empty.runW ops).1 :=
-  (runW_sim Sql.empty wf_empty ops).2
+  (runW_sim Sql.empty wf_empty numbered_empty ops).2.1
+
+open VizierModel.Stores in
+/-- along every such sequence each (study, worker) operation list is numbered 1, 2, 3, … in row order:
+    this is why RAM's `len(ops)` and SQL's `max(operation_number)` hand the same next number to
+    SuggestTrials (`maxOpNumber` is one of the reads of `c07_store_simulation`) -/
+theorem c07_store_ops_numbered (ops : List WOp) : Numbered (Sql.empty.runW ops).1 :=
+  (runW_sim Sql.empty wf_empty numbered_empty ops).2.2
 
 open VizierModel.Stores in
 /-- non-vacuity: a concrete history with successes, failures and a delete / re-create -/
@@ -94,6 +101,19 @@ example :
     (Sql.empty.runW [.createStudy ("o", "s") h, .createTrial ("o", "s") t, .createTrial ("o", "s") t,
                      .deleteStudy ("o", "s"), .createStudy ("o", "s") h, .updateTrial ("o", "s") t]).2 =
       [none, none, some .alreadyExists, none, none, some .notFound] := by decide
+
+open VizierModel.Stores in
+/-- non-vacuity for operations: two operations of one worker get the numbers 1 and 2 on both stores, the
+    second create for another study fails (no such study), an update of an operation that exists succeeds -/
+example :
+    let h : Head := { state := .active, spec := 0, md := [] }
+    let ops : List WOp := [.createStudy ("o", "s") h, .createNextOp ("o", "s") "w" false .none,
+      .createNextOp ("o", "s") "w" false .none, .createNextOp ("o", "zz") "w" false .none,
+      .updateOp ("o", "s") { client := "w", num := 2, done := true, result := .error },
+      .updateOp ("o", "s") { client := "w", num := 3, done := true, result := .error }]
+    (Sql.empty.runW ops).2 = [none, none, none, some .notFound, none, some .notFound] ∧
+    ((Sql.empty.runW ops).1.opsOf ("o", "s") "w").map (fun o => (o.num, o.done)) = [(1, false), (2, true)] ∧
+    ((Ram.empty.runW ops).1.maxOpNumber ("o", "s") "w").toOption = some 2 := by decide
 
 open VizierModel.Stores in
 /-- WITHOUT the service's guard the stores differ: SQL `create_trial` does not check that the study
